@@ -16,7 +16,13 @@ use vf_explore::{Report, Stats, Value, catch, cli, json, ncpu, par_map, quiet_pa
 fn table(prop: &str) -> Vec<&'static ProgEntry> {
     let mut v: Vec<&'static ProgEntry> = match prop {
         "C24" => vfp_c24_0of3::TABLE.iter().chain(vfp_c24_1of3::TABLE.iter()).chain(vfp_c24_2of3::TABLE.iter()).collect(),
-        "C25" => vfp_c25_0of3::TABLE.iter().chain(vfp_c25_1of3::TABLE.iter()).chain(vfp_c25_2of3::TABLE.iter()).collect(),
+        "C25" => vfp_c25_0of5::TABLE
+            .iter()
+            .chain(vfp_c25_1of5::TABLE.iter())
+            .chain(vfp_c25_2of5::TABLE.iter())
+            .chain(vfp_c25_3of5::TABLE.iter())
+            .chain(vfp_c25_4of5::TABLE.iter())
+            .collect(),
         "C26" => vfp_c26_0of1::TABLE.iter().collect(),
         _ => unreachable!(),
     };
@@ -141,7 +147,8 @@ fn judge_graph(exp: &Expect, obs: &Obs, h: &History) -> Option<(String, String)>
 }
 
 /// Oracle for reference programs (C25).
-fn judge_ref(p: &RefProg, exp: &BTreeMap<usize, Vec<RLog>>, obs: &Obs, h: &History) -> Option<(String, String)> {
+fn judge_ref(p: &C25Prog, exp: &C25Expect, obs: &Obs, h: &History) -> Option<(String, String)> {
+    let readers = p.readers();
     if let Some(f) = &obs.failure {
         return Some(("panic".into(), f.clone()));
     }
@@ -152,7 +159,7 @@ fn judge_ref(p: &RefProg, exp: &BTreeMap<usize, Vec<RLog>>, obs: &Obs, h: &Histo
     }
     // (1) every read / mutation sees the value the reference predicts (settled state, then the
     //     updates of earlier groups), per closure as a sequence.
-    let mut got: BTreeMap<usize, Vec<RLog>> = p.readers.iter().map(|r| (r.id, vec![])).collect();
+    let mut got: BTreeMap<usize, Vec<RLog>> = readers.iter().map(|r| (r.id, vec![])).collect();
     let mut pos: Vec<(usize, u64, usize)> = vec![]; // (reader, tick, global position)
     for (i, ev) in obs.log.iter().enumerate() {
         if let Ev::Ref { reader, tick, item, before, after } = ev {
@@ -161,8 +168,8 @@ fn judge_ref(p: &RefProg, exp: &BTreeMap<usize, Vec<RLog>>, obs: &Obs, h: &Histo
         }
     }
     // (2) group precedence inside a tick (checked first: it explains value mismatches).
-    for a in &p.readers {
-        for b in &p.readers {
+    for a in readers {
+        for b in readers {
             if a.group < b.group {
                 for t in 0..h.len() as u64 {
                     let last_a = pos.iter().filter(|x| x.0 == a.id && x.1 == t).map(|x| x.2).max();
@@ -182,8 +189,8 @@ fn judge_ref(p: &RefProg, exp: &BTreeMap<usize, Vec<RLog>>, obs: &Obs, h: &Histo
             }
         }
     }
-    for r in &p.readers {
-        let e = &exp[&r.id];
+    for r in readers {
+        let e = &exp.readers[&r.id];
         let g = &got[&r.id];
         if e != g {
             let i = e.iter().zip(g.iter()).position(|(x, y)| x != y).unwrap_or(e.len().min(g.len()));
@@ -191,6 +198,23 @@ fn judge_ref(p: &RefProg, exp: &BTreeMap<usize, Vec<RLog>>, obs: &Obs, h: &Histo
                 "observed-value".into(),
                 format!("closure {} entry {}: expected {:?}, observed {:?}", r.id, i, e.get(i), g.get(i)),
             ));
+        }
+    }
+    // Slot programs: the pipe consumer of the slot still receives everything (multiset per tick).
+    if let Some(cons) = &exp.consumer {
+        for (t, want) in cons.iter().enumerate() {
+            let mut have: Vec<It> = obs
+                .log
+                .iter()
+                .filter_map(|ev| match ev {
+                    Ev::Item { sink: 1, tick, item } if *tick == t as u64 => Some(*item),
+                    _ => None,
+                })
+                .collect();
+            have.sort();
+            if &have != want {
+                return Some(("slot-consumer".into(), format!("tick {t}: the slot's pipe consumer received {have:?}, expected {want:?}")));
+            }
         }
     }
     None
@@ -401,20 +425,20 @@ fn run_graph_property(rep: &mut Report, prop: &str, fam: &[Graph], steps: usize,
     rep.section("programs_x_histories", st);
 }
 
-fn check_ref_prog(p: &RefProg, e: &ProgEntry, hists: &[History]) -> Stats {
+fn check_ref_prog(p: &C25Prog, e: &ProgEntry, hists: &[History]) -> Stats {
     let mut st = Stats::new();
     let mut reported = false;
     for h in hists {
         note_case(e.name, h);
-        let exp = expect_ref(p, h);
+        let exp = p.expect(h);
         let obs = run_real(e, h);
         st.eval();
-        if exp.values().any(|v| !v.is_empty()) {
+        if exp.readers.values().any(|v| !v.is_empty()) {
             st.nontrivial(&(e.name, hist_string(h)));
         }
-        let refs: Vec<&Ev> = obs.log.iter().filter(|e| matches!(e, Ev::Ref { .. })).collect();
+        let refs: Vec<&Ev> = obs.log.iter().filter(|e| matches!(e, Ev::Ref { .. } | Ev::Item { sink: 1, .. })).collect();
         st.outcome(&(refs, obs.failure.clone()));
-        if exp.values().map(|v| v.len()).sum::<usize>() >= 3 {
+        if exp.readers.values().map(|v| v.len()).sum::<usize>() >= 3 {
             st.sample(|| json!({"prog": e.name, "history": hist_string(h), "observed_log": format!("{:?}", obs.log)}));
         }
         if let Some((kind, detail)) = judge_ref(p, &exp, &obs, h) {
@@ -460,11 +484,11 @@ fn replay(prop: &str, file: &str) -> ! {
             judge_graph(&exp, &obs, &h)
         }
         "C25" => {
-            let fam = family_c25();
+            let fam = family_c25_all();
             let table = table("C25");
             let i = table.iter().position(|e| e.name == name).expect("unknown program");
             println!("{}", table[i].text);
-            let exp = expect_ref(&fam[i], &h);
+            let exp = fam[i].expect(&h);
             let obs = run_real(table[i], &h);
             println!("expected: {:?}\nobserved: {:?}", exp, obs.log);
             judge_ref(&fam[i], &exp, &obs, &h)
@@ -523,10 +547,11 @@ fn main() {
             rep.rule = "case = (compiled program with one state and 1-3 referencing closures, history of run_tick_sync calls with all placements of <= N items over all sources). Non-trivial: >= 1 closure invocation expected.".into();
             rep.explanation = "Every referencing closure logs (closure, tick, item, value seen, value left). Per closure the log sequence must equal the reference: the state value after ALL same-tick producers ran, then the fixed non-commutative updates (v*2+item) of all closures in lower access groups. In the global log, within a tick, every entry of a lower group precedes every entry of a higher group on the same state.".into();
             rep.assume("'group declared later' is read as 'higher access-group number #{N}'; the textual declaration order of the closures is permuted and must not matter");
+            rep.assume("slot programs (c25_slotref_*): a handoff()/optional()/singleton() slot with one pipe consumer and 2-3 shared `#slot` readers in all statement orders; every reader must observe the slot's full same-tick contents (never the drained slot) and the consumer must still receive everything");
             rep.assume("mutating closures are only used on 'tick states (persistence of a mutation made through a reference into the next tick of a 'static state is not specified)");
-            let fam = family_c25();
+            let fam = family_c25_all();
             let table = table("C25");
-            table_check(&table, &fam, |p| p.name.clone(), |p| p.dfir_text());
+            table_check(&table, &fam, |p| p.name(), |p| p.dfir_text());
             let (steps, items) = if thorough { (3, 4) } else { (3, 3) };
             let alpha = alphabet("C25", thorough, false);
             let mut order: Vec<usize> = (0..fam.len()).collect();
